@@ -429,6 +429,25 @@ def desugar(F):
                 b._cfg_cache = None
                 done.append((c.split('::')[-1], p))
                 continue
+            if c in ('std::option::Option::<std::option::Option<T>>::flatten', _O + 'flatten') and len(t['args']) == 1 and t['args'][0]['k'] != 'const' and not t['args'][0]['p']['proj']:
+                # x.flatten()  ->  match x { Some(inner) => inner, None => None }
+                recv = t['args'][0]
+                inner_ty = _option_payload(b.locals[recv['p']['l']]['ty'])
+                if inner_ty is None:
+                    continue
+                b.locals.append({'ty': 'isize', 'name': None, 'user': False})
+                dl = {'l': len(b.locals) - 1, 'proj': []}
+                none = {'k': 'agg', 'ak': 'adt', 'adt': 'std::option::Option', 'variant': 0, 'vname': 'None', 'fields': [], 'ops': []}
+                payload_pl = {'l': recv['p']['l'], 'proj': [{'dc': 1, 'name': 'Some'}, {'f': 0, 'name': '0', 'ty': inner_ty}]}
+                b_some = len(b.blocks)
+                b.blocks.append({'stmts': [dict(pos, dst=dst, rv={'k': 'use', 'ops': [{'k': 'move', 'p': payload_pl}]})], 'cleanup': False, 'term': dict(pos, k='goto', target=target)})
+                b_none = len(b.blocks)
+                b.blocks.append({'stmts': [dict(pos, dst=dst, rv=none)], 'cleanup': False, 'term': dict(pos, k='goto', target=target)})
+                b.blocks[bi]['stmts'].append(dict(pos, dst=dl, rv={'k': 'discr', 'p': {'l': recv['p']['l'], 'proj': []}}))
+                b.blocks[bi]['term'] = dict(pos, k='switch', on={'k': 'move', 'p': dl}, targets=[[0, b_none]], otherwise=b_some, desugared='flatten')
+                b._cfg_cache = None
+                done.append(('flatten', p))
+                continue
             if c in (_O + 'or', _O + 'and') and len(t['args']) == 2 and t['args'][0]['k'] != 'const' and not t['args'][0]['p']['proj']:
                 # a.or(b)  ->  match a { Some(_) => a, None => b }        a.and(b)  ->  match a { Some(_) => b, None => None }
                 recv, other = t['args']
